@@ -314,6 +314,54 @@ Definition td_cent_margin (c : td_cfg) (an : animal) : Q :=
   Qmin (tie_margin (aff_apply (fst (tg_cx g)) (fst (an_cent an))) (td_osc c))
        (tie_margin (aff_apply (fst (tg_cy g)) (snd (an_cent an))) (td_osc c)).
 
+
+(* ------------------------------------------------------------------ top-down with ground-truth centroids (F7) *)
+(* TopDownPredictor with centroid model = None (LabelsReader only): _predict_generator
+   multiplies the labelled instances by eff_scale, CentroidCrop(use_gt_centroids=True)
+   takes the midpoint of each instance's bounding box (anchor_ind = None) as centroid.
+   As pinned, `_generate_crops` runs BEFORE the image is resized by precrop_resize and
+   before the centroids are scaled, while FindInstancePeaks still divides peaks and
+   bbox by input_scale.  `fixed` = behaviour after proposed_fixes/C02_F7.diff (resize and
+   scale first, as the predicted-centroid branch does). *)
+Definition opt_min (a : option Q) (b : Q) : option Q :=
+  match a with None => Some b | Some v => Some (Qmin v b) end.
+Definition opt_max (a : option Q) (b : Q) : option Q :=
+  match a with None => Some b | Some v => Some (Qmax v b) end.
+
+Definition bbox_mid (kps : list kp) : option (Q * Q) :=
+  let vis := somes kps in
+  match fold_left (fun acc p => opt_min acc (fst p)) vis None,
+        fold_left (fun acc p => opt_max acc (fst p)) vis None,
+        fold_left (fun acc p => opt_min acc (snd p)) vis None,
+        fold_left (fun acc p => opt_max acc (snd p)) vis None with
+  | Some x0, Some x1, Some y0, Some y1 => Some ((x0 + x1) / 2, (y0 + y1) / 2)
+  | _, _, _, _ => None
+  end.
+
+Definition td_gt_geom (fixed : bool) (c : td_cfg) : td_geom_t :=
+  let g := td_geom c in
+  if fixed then g
+  else
+    let m := sizematch (td_H c) (td_W c) (td_mh c) (td_mw c) in
+    {| tg_cx := tg_cx g; tg_cy := tg_cy g;
+       tg_px := sm_map (td_W c) (sm_tw m) (sm_resized m);      (* crop cut from the un-resized image *)
+       tg_py := sm_map (td_H c) (sm_th m) (sm_resized m);
+       tg_eff := tg_eff g; tg_nix := tg_nix g; tg_niy := tg_niy g |}.
+
+Definition td_gt_topleft (fixed : bool) (cent eff si : Q) (crop : Z) : Q :=
+  (if fixed then cent * eff * si else cent * eff) - inject_Z crop / 2 + (1 # 2).
+
+Definition td_gt_instance (fixed : bool) (c : td_cfg) (kps : list kp)
+  : option ((Q * Q) * list (kp * option Q) * list Q) :=
+  match bbox_mid kps with
+  | None => None
+  | Some (mx, my) =>
+      let g := td_gt_geom fixed c in
+      let tlx := td_gt_topleft fixed mx (tg_eff g) (td_si c) (td_cw c) in
+      let tly := td_gt_topleft fixed my (tg_eff g) (td_si c) (td_ch c) in
+      Some ((tlx, tly), map (td_kp c g tlx tly) kps, map (td_kp_margin c g (tlx, tly)) kps)
+  end.
+
 (* ------------------------------------------------------------------ F7 (latent) *)
 (* _predict_generator, preprocess = True and instances_key = True:
    `apply_resizer(ex["image"], ex["instances"])` is called WITHOUT the scale, so
@@ -328,12 +376,14 @@ Inductive case :=
 | CSingle (c : si_cfg) (pv : provider) (kps : list kp)
 | CTopDown (c : td_cfg) (animals : list animal)
 | CTopDownAt (c : td_cfg) (tl : Q * Q) (kps : list kp)     (* instance stage at a given crop corner *)
+| CTopDownGT (fixed : bool) (c : td_cfg) (animals : list (list kp))
 | CSizes (H W : Z) (mh mw : option Z) (s : Q) (ms : Z).
 
 Inductive result :=
 | RSingle (geom : (aff * Z) * (aff * Z) * Q) (pts : list (kp * option Q)) (margins : list Q)
 | RTopDown (g : td_geom_t) (insts : list td_inst) (cmargins : list Q)
 | RTopDownAt (pts : list (kp * option Q)) (margins : list Q)
+| RTopDownGT (insts : list (option ((Q * Q) * list (kp * option Q) * list Q)))
 | RSizes (g : sized) (rh rw ph pw : Z).
 
 Definition run (k : case) : result :=
@@ -346,6 +396,7 @@ Definition run (k : case) : result :=
   | CTopDownAt c tl kps =>
       let g := td_geom c in
       RTopDownAt (map (td_kp c g (fst tl) (snd tl)) kps) (map (td_kp_margin c g tl) kps)
+  | CTopDownGT fixed c ans => RTopDownGT (map (td_gt_instance fixed c) ans)
   | CSizes H W mh mw s ms =>
       let g := sizematch H W mh mw in
       RSizes g (resize_dim (sm_h g) s) (resize_dim (sm_w g) s)
@@ -370,6 +421,8 @@ Definition rresult (r : result) : rdr :=
         [raffn (tg_cx g); raffn (tg_cy g); rpair rQ rQ (tg_px g); rpair rQ rQ (tg_py g); rQ (tg_eff g);
          rpair rZ rZ (tg_nix g, tg_niy g); rlist rinst insts; rlist rQ cms]
   | RTopDownAt pts ms => rlist (fun x => x) [rlist rpt pts; rlist rQ ms]
+  | RTopDownGT insts =>
+      rlist (ropt (rtriple (rpair rQ rQ) (rlist rpt) (rlist rQ))) insts
   | RSizes g rh rw ph pw =>
       rlist (fun x => x) [rZ (sm_h g); rZ (sm_w g); rZ (sm_th g); rZ (sm_tw g); rQ (sm_eff g);
                           rbool (sm_resized g); rZ rh; rZ rw; rZ ph; rZ pw]
